@@ -201,8 +201,9 @@ fn run_renderer(size: Option<(u16, u16)>, is_tty: bool, tables: &[Table], print:
 
 fn level1(ctx: &mut Ctx, idx: usize, r: &mut Rng, clean: bool) {
     let cfg = CellCfg { wide: false, control: false, long: r.chance(30), blanks: r.chance(30) };
+    // (at least 8 columns: `No data` itself needs 7)
     let mut w = match r.below(6) {
-        0 => 2 + r.below(8) as u16,
+        0 => 8 + r.below(8) as u16,
         1 => 10 + r.below(30) as u16,
         _ => 40 + r.below(211) as u16,
     };
@@ -381,6 +382,10 @@ fn split_frames(text: &str) -> Vec<String> {
                 }
                 rest = &rest[p..];
                 while let Some(r) = rest.strip_prefix(unit) {
+                    rest = r;
+                }
+                // the reset sequence ends by erasing the line the cursor arrives on
+                if let Some(r) = rest.strip_prefix("\x1b[2K") {
                     rest = r;
                 }
             }
